@@ -107,6 +107,8 @@ def run_check(pid, tier, replay=None):
             rp = C.write_replay(pid, cid, {"property": pid, "kind": "ez", "case": byid.get(cid), "crash": stderr})
             violations.append(("process crashed while executing case %s: %s" % (cid, first), rp))
         for r in results:
+            if len(violations) >= 30:
+                break
             ms = r.get("mismatches") or []
             hard = [m for m in ms if m["kind"] in ("prop", "panic")]
             if hard:
